@@ -14,6 +14,7 @@ Streams
 import itertools
 import operator
 import signal
+import time
 from contextlib import contextmanager
 
 import numpy as np
@@ -493,11 +494,11 @@ class Impl:
         return {'code': code, 'ext': ext, 'ds': ds}
 
     def registered_ok(self):
-        """objects the tables may legitimately point at: coordinate links of members + registered links (+ inverses)"""
+        """objects the tables may legitimately point at: internal links of members + registered links (+ inverses)"""
         from glue.core.link_helpers import LinkCollection
         ok = set()
         for D in self.dc.data:
-            for l in D.coordinate_links:
+            for l in D.links:       # coordinate links + the links of the internal derived components
                 ok.add(id(l))
         for e in self.dc.external_links:
             subs = list(e) if isinstance(e, LinkCollection) else [e]
@@ -684,10 +685,13 @@ def check_history(R, case, model_obs=None):
                     ownvals = {c: tuple(case['vals'][c]) for c in own}
                     depth, values = fixpoint(own, links, ownvals, ab.fixed_values(d))
                     closure[d] = (depth, values)
-                    want_tab = sorted((c, k) for c, k in depth.items() if k > 0)
-                    if o_d['table'] != want_tab:
+                    # the dataset's own derived attributes are components: whether the code also lists them as externally
+                    # derivable is not part of the property (the model correspondence compares them), so they are left out
+                    want_tab = sorted((c, k) for c, k in depth.items() if k > 0 and c not in ab.der[d])
+                    got_tab = [(c, k) for c, k in o_d['table'] if c not in ab.der[d]]
+                    if got_tab != want_tab:
                         fails.append(('oracle', dict(where, dataset=d, why='externally derivable attributes / chain lengths differ from the closure of the registered links',
-                                                     impl=o_d['table'], expected=want_tab), None))
+                                                     impl=got_tab, expected=want_tab), None))
                     for c in universe:
                         v = o_d['vals'][c]
                         if c in depth:
@@ -1049,7 +1053,9 @@ def stream_exhaustive(R):
                   ('coordsnone', 1), ('delaybegin',), ('delayend',)]
     alpha_small = [('addlink', 0), ('addlink', 1), ('addlink', 2), ('addlink', 3), ('addlink', 6), ('removelink', 0),
                    ('adddata', 2), ('removedata', 1), ('removecomp', 0, 2), ('coordsnone', 1), ('delaybegin',), ('delayend',)]
-    plans = R.pick([(alpha_full, 2), (alpha_small, 3)], [(alpha_full, 3), (alpha_small, 4)])
+    alpha_tiny = [('addlink', 0), ('addlink', 6), ('removelink', 0), ('adddata', 2), ('removedata', 1),
+                  ('removecomp', 0, 2), ('coordsnone', 1), ('delaybegin',), ('delayend',)]
+    plans = R.pick([(alpha_full, 2), (alpha_small, 3)], [(alpha_full, 3), (alpha_small, 3), (alpha_tiny, 4)])
     seen = set()
     cases = []
     for alpha, maxlen in plans:
@@ -1100,7 +1106,7 @@ def stream_graphs(R):
 
 # ---------------------------------------------------------------------- stream: random histories
 def stream_random(R):
-    n = R.pick(800, 3000)
+    n = R.pick(500, 2200)
     cases = []
     for i in range(n):
         rng = R.subrng('hist', i)
@@ -1113,7 +1119,7 @@ def stream_random(R):
         cases.append(case)
     run_histories(R, 'histories_random', cases, False, '%d histories of 3..12 operations over 2..5 datasets, pools of 3..10 links' % n)
     # link-heavy histories: long chains, cycles and diamonds over many datasets, few removals
-    m = R.pick(250, 1000)
+    m = R.pick(150, 800)
     cases = []
     for i in range(m):
         rng = R.subrng('dense', i)
@@ -1268,13 +1274,26 @@ def run(R):
               'history streams: one case = (datasets, pool of links, operation sequence); after every operation every dataset is observed; '
               'non-trivial when some dataset has a non-empty table of externally derivable attributes at some step; distinct = distinct canonical case')
     R.exhaustive = False
+    t0 = time.time()
+
+    def lap(names):
+        nonlocal t0
+        for n in names:
+            if n in R.streams:
+                R.streams[n]['wall_s'] = round(time.time() - t0, 1)
+        t0 = time.time()
     cases, bound = discover_cases_exhaustive(R)
     run_discover(R, 'discover_exhaustive', cases, True, bound)
+    lap(['discover_exhaustive'])
     cases, bound = discover_cases_random(R)
     run_discover(R, 'discover_random', cases, False, bound)
+    lap(['discover_random'])
     stream_graphs(R)
+    lap(['graphs'])
     stream_exhaustive(R)
+    lap(['histories_exhaustive'])
     stream_random(R)
+    lap(['histories_random', 'histories_dense'])
 
 
 def replay(R, case):
